@@ -406,7 +406,7 @@ pub fn run(args: &Args, rec: &mut Recorder) {
     let g = Grammar::load_default();
     let bounds = all_boundaries(&g);
     let n_bound = bounds.len() as u64;
-    let n_docs: u64 = if args.thorough { 500_000 } else { 20_000 };
+    let n_docs: u64 = if args.thorough { 500_000 } else { 60_000 };
     rec.extra.insert("boundary_literals".into(), Json::UInt(if args.shard == 0 { n_bound } else { 0 }));
     run_cases(args, rec, n_bound + n_docs, crate::util::reset_budget, |rng, case, rec| {
         if case < n_bound {
